@@ -263,9 +263,15 @@ func genC13(r *Rng) *Plan {
 		cfg.Routes = append(cfg.Routes, Route{Service: "exact", From: "foo.dyn.sso.sim", To: "exact.backend.sim", Backend: []string{"exact.backend.sim"},
 			Options: map[string]any{"allowed_email_addresses": []string{"bob@example.com"}}})
 	}
-	p := &Plan{Cfg: cfg, Users: stdUsers, Gen: fmt.Sprintf("routes-%d-%d", nSimple, rw)}
+	ported := r.Chance(1, 2)
+	if ported {
+		// the same host name on another port is another upstream, with its own rules and backend
+		cfg.Routes = append(cfg.Routes, Route{Service: "app1port", From: "app1.sso.sim:8443", To: "app1port.backend.sim", Backend: []string{"app1port.backend.sim"},
+			Options: map[string]any{"allowed_email_addresses": []string{r.Pick("bob@example.com", "carol@other.org")}}})
+	}
+	p := &Plan{Cfg: cfg, Users: stdUsers, Gen: fmt.Sprintf("routes-%d-%d-%v", nSimple, rw, ported)}
 	hosts := []string{"app1.sso.sim", "app2.sso.sim", "app3.sso.sim", "foo.dyn.sso.sim", "bar.dyn.sso.sim", "foo.x.sso.sim", "APP1.sso.sim", "app1.sso.sim:80", "app1.sso.sim.",
-		"nomatch.sso.sim", "app1.dyn.sso.sim", "xapp1.sso.sim", "app1.sso.sim.evil.sso.sim", "foo.dyn.sso.sim:8080", "dyn.sso.sim"}
+		"nomatch.sso.sim", "app1.dyn.sso.sim", "xapp1.sso.sim", "app1.sso.sim.evil.sso.sim", "foo.dyn.sso.sim:8080", "dyn.sso.sim", "app1.sso.sim:8443", "app1.sso.sim:8443", "app1.sso.sim:9999"}
 	users := []string{"alice@example.com", "bob@example.com", "carol@other.org"}
 	n := r.Range(6, 20)
 	for i := 0; i < n; i++ {
@@ -290,6 +296,9 @@ func genC18(r *Rng) *Plan {
 	cfg := swarmConfig(r)
 	cfg.Secure = r.Chance(1, 2)
 	opts := map[string]any{"skip_auth_regex": []string{"^/public/"}, "timeout": "2s"}
+	if r.Chance(1, 4) {
+		opts["flush_interval"] = "100ms" // streaming upstream: no timeout handler in front of the reverse proxy
+	}
 	if r.Chance(1, 3) {
 		opts["header_overrides"] = map[string]string{r.Pick("X-Frame-Options", "X-Xss-Protection", "X-Content-Type-Options", "x-frame-options"): r.Pick("DENY", "0", "max-age=60", "ALLOW-FROM https://x.sim")}
 	}
@@ -318,12 +327,16 @@ func genC18(r *Rng) *Plan {
 			if r.Chance(1, 6) {
 				beh.Delay = 5 * time.Second // beyond the upstream timeout: TimeoutHandler answers
 			}
+			if r.Chance(1, 5) {
+				beh.EarlyHints = true
+			}
 			p.Steps = append(p.Steps, Step{Op: "upstream", Name: "", Upstream: beh})
 		}
 		if r.Chance(1, 8) {
 			p.Steps = append(p.Steps, Step{Op: "net", Name: "proxy-up>" + cfg.Routes[0].Backend[0], Sub: r.Pick("refuse", "reset", "truncate"), Arg: 1, Arg2: 20})
 		}
-		st := Step{Op: "get", B: r.Pick("b1", "b1", "anon"), Host: host, Target: r.Pick("/", "/public/x", "/oauth2/auth", "/oauth2/sign_out", "/oauth2/callback?error=x", "/oauth2/callback", "/robots.txt", "/favicon.ico", "/a?b=c d", "/oauth2/v1/certs"),
+		st := Step{Op: "get", B: r.Pick("b1", "b1", "anon"), Host: host, Target: r.Pick("/", "/public/x", "/oauth2/auth", "/oauth2/sign_out", "/oauth2/callback?error=x", "/oauth2/callback", "/robots.txt", "/favicon.ico", "/a?b=c d", "/oauth2/v1/certs",
+				"/files/a%2Fb/download?rev=3", "/%41dmin/panel", "/with%20space?q=%20", "/a%252Fb", "/public/x%2Fy", "/caf%C3%A9"),
 			Method: r.Pick("GET", "GET", "POST", "OPTIONS"), Dt: posDur(landmark(r, cfg) / 5)}
 		if cfg.Secure {
 			switch r.Intn(5) {
@@ -349,6 +362,8 @@ func genC18(r *Rng) *Plan {
 var hostileStrings = []string{`<script>alert(1)</script>`, `"><img src=x onerror=alert(1)>`, `'><svg/onload=alert(1)>`, `</h1><a href="javascript:alert(1)">x</a>`, `&lt;b&gt;`, `&#x3C;script&#x3E;`,
 	`+ADw-script+AD4-alert(1)+ADw-/script+AD4-`, "\xc0\xbcscript\xc0\xbe", `{{.Code}}`, `{{template "header.html"}}`, `javascript:alert(1)`, `" onmouseover="alert(1)`, `x" autofocus onfocus="alert(1)`,
 	`</title><script>1</script>`, `<!--`, `--><script>1</script>`, "line1\nline2", "tab\there", `\"; alert(1); //`, `<b>bold</b>`, `%3Cscript%3E`, `<scr<script>ipt>`, "a\x00b", `<math><mi//xlink:href="data:x,<script>alert(1)</script>">`,
+	`&amp;<script>alert(1)</script>`, `&#34;><img src=x onerror=alert(1)>`, `&lt;<iframe src=//evil.com></iframe>`, `&amp<a href=//evil.com>x</a>`, `&quot; onmouseover=&quot;alert(1)`,
+	`already &amp; encoded <b>and not</b>`, `%26amp%3B<script>`, `&#x26;<svg onload=alert(1)>`, `&nbsp;<style>*{display:none}</style>`,
 	`</span></p></div></body></html><html><body><form action="https://evil.com">`, `<input name="redirect_uri" value="https://evil.com">`, `<meta http-equiv="refresh" content="0;url=https://evil.com">`, `"'`, `<`, `>`, `&`, `<a href=//evil.com>`}
 
 // C20 (proxy half and authenticator half): hostile text in every request-controlled position,
@@ -375,6 +390,10 @@ func genC20(r *Rng) *Plan {
 	n := r.Range(3, 10)
 	for i := 0; i < n; i++ {
 		h := hostileStrings[r.Intn(len(hostileStrings))]
+		if r.Chance(1, 3) {
+			// two tricks at once: escaping that is conditional on what else the string contains shows only in combinations
+			h += hostileStrings[r.Intn(len(hostileStrings))]
+		}
 		xhr := r.Chance(1, 4)
 		accJSON := r.Chance(1, 4)
 		extra := func(st Step) Step {
